@@ -4,6 +4,7 @@ import PV.Model.Traverse
 import PV.Driver.GAOps
 import PV.Driver.AlgoOps
 import PV.Driver.SyntaxOps
+import PV.Driver.DispatchOps
 /-
   Driver operations: one request S-expression in, one reply S-expression out.
 -/
@@ -186,6 +187,9 @@ def handle (req : Sexp) : Sexp :=
   | some r => r
   | none =>
   match handleSyntax req with
+  | some r => r
+  | none =>
+  match handleDispatch req with
   | some r => r
   | none =>
   match handleTraverse req with
